@@ -1,4 +1,4 @@
-"""E6 - finite-scenario interpretation of package code.
+"""E7 - finite-scenario interpretation of package code.
 
 Some properties quantify over configuration values the code touches only through a handful of observations: a port name
 is compared, hashed, tested for membership and quoted in messages - never taken apart; a selection is a set of names or one
